@@ -88,10 +88,12 @@ def pcOf (g : Tid) : M PC := do return (← get).s.pc g
 /-- leader `p` (waiting lazily at `d0`) deletes its entry and releases the wait group; joiners first. -/
 def forceDelete (line : Nat) (p : Tid) (pid : Nat) : M Unit := do
   let st ← get
+  -- (the leader's function returned (nil, nil): its joiners are handed the zero values, too)
+  let leaderNil : Bool := match st.cur.lookup p with | some q => q.nilv | none => false
   if (← pcOf p) = .d0 then
     for (g, o) in st.cur do
       -- (a zero-valued joiner joins the first panicking flight that is deleted while it is invoked: joining early is always possible)
-      if (← pcOf g) = .l0 ∧ !o.ran ∧ (source o = some pid ∨ (zeroJoiner o ∧ st.s.pn p ∧ st.s.key g = st.s.key p)) then advs line g [.l1, .w0, .w1]
+      if (← pcOf g) = .l0 ∧ !o.ran ∧ (source o = some pid ∨ (zeroJoiner o ∧ (st.s.pn p ∨ leaderNil) ∧ st.s.key g = st.s.key p)) then advs line g [.l1, .w0, .w1]
     -- a leader whose function panicked unwinds through the same deferred block, then the panic leaves Do (`px`)
     advs line p [.d1, .d2, .d3, (if (← get).s.pn p then .px else .r0)]
   else if (← pcOf p) = .r0 ∨ (← pcOf p) = .px then pure ()
@@ -123,7 +125,7 @@ def onEvent (e : Ev) : M Unit := do
   | .fe =>
     if o.spanic then adv ln g 0 .d0
     else
-      adv ln g o.id .m2
+      adv ln g (if o.nilv then 0 else o.id) .m2
       adv ln g 0 .d0
   | .ret =>
     if o.ran then
@@ -224,7 +226,7 @@ def onEvent (e : Ev) : M Unit := do
     | none => pure ()
     advs ln g [.b1, .c0, .c1, .c2, .c3, .f0]
     if o.spanic then tag "lc-model-fn-panics"; adv ln g 1 .fp else adv ln g 0 .f1
-  | .fe => adv ln g o.id .e0
+  | .fe => adv ln g (if o.nilv then 0 else o.id) .e0
   | .ret =>
     forceRelease ln g
     let wasPx := (← pcOf g) = .px
@@ -237,7 +239,7 @@ def onEvent (e : Ev) : M Unit := do
       match st.s.rets.head? with
       | none => throw (ln, "model: no return recorded", "return")
       | some r =>
-        if some r.val ≠ o.val ∨ r.runs ≠ o.runs then
+        if (if r.val = 0 then none else some r.val) ≠ o.val ∨ r.runs ≠ o.runs then
           throw (ln, s!"model returns val={r.val} runs={r.runs}", s!"val={o.val} runs={o.runs}")
     modify fun st => { st with cur := st.cur.del g }
 
